@@ -84,6 +84,11 @@ CHECKS = {
          "About 440 000 patterns (42 atoms x 13 quantifiers, all concatenations of two quantified atoms, three over a reduced alphabet, alternations of 2-3 items bare/grouped/anchored/in context, grouping x quantifier over concatenations of <=2 atoms, adjacent identical groups; <=60 bytes, accepted by regexp.Compile) are analysed by the real checker; for each of the ~320 000 proposed rewrites the original and the rewrite are compiled with Go's regexp and compared on every subject string over the pattern's own characters plus {z, newline} up to length 4 (5 thorough): FindStringSubmatchIndex, NumSubexp and SubexpNames must agree. A failing pattern is shrunk (token deletion against the real checker) to a minimal pattern with the same failure and keyed by the wrong rewrite step.",
          "Go's regexp is the reference semantics. Known findings are keyed by failure kind and recognised rewrite step (unrecognised steps keep their literal diff hunk as key, so they always alarm).",
          "DESIGN.md section 3, C11"),
+ "C04": ("model_checking",
+         "stateless model checking of the real concurrent code under a hand-written cooperative scheduler: DFS over schedules with a preemption bound (unbounded for small scenarios), invariants and sequential-result comparison in every execution; free-running race-detector legs as complement",
+         "vinstr rewrites, at build time, the go statement, the chan struct{} semaphore, sync.WaitGroup and sync.Mutex of cmd/*/check.go and checkers/analyzer/run.go to scheduler shims (verifmcrt); /repo is untouched. Leg 1: the real checkFile with 1-3 probe checkers (walkers that yield, count how many are inside WalkFile, optionally panic with an error / a string) x concurrency 1..3, every interleaving (unbounded for <=2 checkers, preemption bound 2 otherwise, 3 thorough): no deadlock, at most `concurrency` walkers active, output lines equal the sequential order, foundIssues correct, a checker panic kills the run, identical replay. Leg 2: 2 and 3 concurrent passes of the real runAnalyzer from a fresh and a warm init latch x {valid, bad -go, empty selection}: every pass equals its sequential result, error reported as sequentially, nothing analysed after a failed init. Leg 3 (complement, sampling of schedules): -race builds of the real go-critic with -concurrency 1..16 on a workspace and of a harness that runs all 107 checkers as goroutines over every example file and parallel per-package checker sets; any race report or output difference is a violation.",
+         "The cooperative scheduler sees only the rewritten synchronisation points and yields inside probe walkers; unsynchronised accesses inside real checkers are the race-detector legs' and C05's subject. -concurrency <= 0 is outside the stated range.",
+         "DESIGN.md section 3, C04"),
 }
 
 PENDING = {
